@@ -395,21 +395,3 @@ def asm_binding(rep: Report, pool: Pool, progs, cases, tier: str, wd) -> list[st
     if tot == 0:
         rep.machinery_error("assembler binding compiled no program")
     return files
-
-
-def replay(path: str, rep: Report) -> int:
-    v = json.load(open(path))
-    case = v["case"]
-    table = case["table"]
-    lt = "linetable" in v["key"]
-    pool = Pool(["310"] if lt else ["38", "39"], per_version=1)
-    try:
-        for ver, ws in pool.workers.items():
-            r = ws[0].req("lines.table_case", table=table, ncode=max(1, sum(table[0::2]) // 2 + 1), lt=lt)
-            print(ver, json.dumps({k: r[k] for k in ("table", "bytes2", "cpy", "lines", "exc") if k in r}))
-            if r.get("bytes2") != table:
-                print(f"VIOLATION property=C10 replay={path}")
-                return 1
-    finally:
-        pool.close()
-    return 0
